@@ -18,6 +18,8 @@ package dns
 // once closing the current label would exceed 255 octets, a fully-qualified name cannot become valid again
 //@ lemma ns_over(s seq, i int, lab int, w int, wasDot bool, nl int) induct len(s) - i over i lab wasDot: (IsFqdnSpec(s) && 0 <= i && i < len(s) && !escd(s, i) && lab >= 0 && w + lab + 2 > 255) ==> namescan(s, i, lab, w, wasDot, nl) < 0 [C03]
 
+//@ lemma dot_valid(s seq): isdot(s) ==> validname(s) && ns63(s, 0, 0, false) && nswire(s, 0, 0, 0) == 1 [C03]
+
 //@ func isDigit [C03 C02]
 //@   ensures ret0 == isdig(b)
 
@@ -101,10 +103,11 @@ package dns
 //@   ensures fail:  err != nil ==> off1 == len(msg) || off1 == off
 //@   ensures acc:   !compress && err == nil && len(s) > 0 ==> ns63(s, 0, 0, false)
 //@   ensures rng:   err == nil && len(s) > 0 ==> off <= off1 && off1 <= len(msg)
-//@   ensures lim255: !compress && err == nil && len(s) > 0 ==> validname(s)
+//@   ensures lim255: !compress && err == nil && len(s) > 0 ==> validname(s) [C03]
 //@   ensures wlen:  !compress && err == nil && len(s) > 0 && !isdot(s) ==> off1 - off == nswire(s, 0, 0, 0) + 1 && off1 - off == unitsfrom(s, 0) + 1 [C08]
 //@   ensures wroot: err == nil && isdot(s) ==> off1 - off == 1 [C08]
 //@   apply at "if isRootLabel(s, bs, 0, ls) {" nswire_units(s, 0, 0, 0)
+//@   apply at "if isRootLabel(s, bs, 0, ls) {" dot_valid(s)
 //@   ensures conv:  len(s) > 0 && IsFqdnSpec(s) && ns63(s, 0, 0, false) && off + nswire(s, 0, 0, 0) + (isdot(s) ? 0 : 1) <= len(msg) ==> err == nil
 //@   assert at "ls -= 3" shift3: forall k in i+1..ls-3 :: bs[k] == s[k + compOff + 3]
 //@   assert at "ls--" shift1: forall k in i..ls-1 :: bs[k] == s[k + compOff + 1]
